@@ -162,6 +162,9 @@ def case_strategy(draw, thorough=False):
             if draw(st.integers(0, 2)) == 0:
                 e["tag"] = [draw(st.sampled_from(BIG)), draw(st.sampled_from(BIG))]
         for p in c["paths"]:
+            # simple robust paths that were scaled after construction (integer factors: no rounding ties in the extensions)
+            if p["kind"] == "rp" and p["simple"] and draw(st.integers(0, 2)) == 0:
+                p["prescale"] = draw(st.sampled_from([2.0, 3.0]))
             for e in p["els"]:
                 if e["end"] == "round":
                     e["end"] = draw(st.sampled_from(["flush", "halfwidth", "extended"]))
